@@ -65,18 +65,22 @@ Next == Compute
 Spec == Init /\ [][Next]_mvars
 
 (* ---- the property on the transcription ------------------------------------------------ *)
-\* exactly the recorded defect (only when the model follows the unrepaired code)
+\* Exactly the recorded defect (only when the model follows the unrepaired code, EmptyPlusFieldRaises): a Gopher+
+\* class asked on a connection of its own kind about a line with 2 or 3 TAB fields whose last field is blank.
 EmptyPlusField(line) == LET f == Fields(line) IN Len(f) \in {2, 3} /\ f[Len(f)] = ""
 Known == EmptyPlusFieldRaises /\ EmptyPlusField(x.line)
+PlusFamily == {"GopherPlusProtocol", "SecureGopherPlusProtocol", "URLGopherPlus"}
+KnownAt(p) == Known /\ p \in PlusFamily /\ (Secure(p) <=> x.tls)
+KnownCrash(got) == Known /\ got = "crash"           \* in this model "crash" has no other source
 Done == phase = "done"
 
-ClaimsMatchShape == Done /\ ~Known => \A p \in Listed : ClaimsMatchShapeAt(p, res.m, res.al[p])
-Total            == Done /\ ~Known => TotalAt(res.det[1])
+ClaimsMatchShape == Done => \A p \in Listed : KnownAt(p) \/ ClaimsMatchShapeAt(p, res.m, res.al[p])
+Total            == Done => KnownCrash(res.det[1]) \/ TotalAt(res.det[1])
 TlsStrict        == Done => \A l \in 1..NL : TlsStrictAt(x.tls, res.det[l])
-Ordered          == Done /\ ~Known => \A l \in 1..NL :
-                        /\ OrderedAt(C_Lists[l], res.m, res.det[l])
+Ordered          == Done => \A l \in 1..NL :
+                        /\ KnownCrash(res.det[l]) \/ OrderedAt(C_Lists[l], res.m, res.det[l])
                         /\ res.det[l] = FirstClaimant(C_Lists[l], 1, res.al)
 Deterministic    == Done => res.dt
 \* the recorded defect is what the model says it is (keeps the weakening exact)
-KnownIsCrash     == Done /\ Known => res.det[1] = "crash"
+KnownIsCrash     == Done => \A p \in Listed : KnownAt(p) => res.al[p] = "crash"
 =============================================================================
